@@ -58,6 +58,9 @@ def items(tier: str, seed: int) -> List[dict]:
             bs = [scen.board(seed + 40 + j, 'passout' if ch == 'p' else names[1 + (j + k + seed) % (len(names) - 1)], D4[(j + k) % 4],
                              V4[(j + 2 * k) % 4], policy=POL[(j + k) % 4], bid=f'id {k}.{j}') for j, ch in enumerate(pat)]
             its.append(dict(spec=scen.mk_spec(bs, teams={'NS': 'Team North-South', 'EW': "O'Neil (2) #1"}), d=0, priority=(n == 2)))
+    # 4b. extreme results: complete-suit deals give declarer 0 or 13 tricks (undoubled, doubled, redoubled; every vulnerability)
+    for k, (a, rot) in enumerate(itertools.product(('open1C', 'second', 'doubled', 'slam', 'redoubled'), range(4))):
+        its.append(dict(spec=scen.mk_spec([scen.board(0, a, D4[(k + seed) % 4], V4[(k + k // 4) % 4], deal=f'onesuit:{rot}', policy=POL[k % 2])]), d=0))
     # 5. schedules
     p1 = scen.mk_spec([scen.board(seed, 'passout', D4[seed % 4], V4[seed % 4])])
     q1 = scen.mk_spec([scen.board(seed + 1, 'doubled', D4[(seed + 1) % 4], V4[(seed + 1) % 4], policy='lowest_held')])
